@@ -281,6 +281,8 @@ def _create_transaction(
         transaction = OutTransaction(**argument_pack)
     elif entry_set_type == EntrySetType.INTRA:
         argument_pack = configuration.get_intra_table_constructor_argument_pack(row_values)
+        # spot_price is an optional field of the intra_header section of the config file (see docs/input_files.md)
+        argument_pack.setdefault("spot_price", None)
         argument_pack = _process_constructor_argument_pack(configuration, argument_pack, internal_id, "IntraTransaction")
         transaction = IntraTransaction(**argument_pack)
     return transaction
